@@ -23,6 +23,8 @@ pub enum LpKind {
     Native,
     /// cw20 LP token of a real constant-product pair (needed for the frontend helper)
     PairLp,
+    /// the same with one cw20 pool asset (the helper's TransferFrom / IncreaseAllowance branch)
+    PairLpCw20,
 }
 
 #[derive(Clone, Debug, Serialize, Deserialize, PartialEq)]
@@ -81,10 +83,14 @@ impl IncWorld {
         let lp = match cfg.lp {
             LpKind::Cw20 => token(&w.create_cw20_with_fund("lptok", 6, I_FUND)),
             LpKind::Native => native("ulp"),
-            LpKind::PairLp => {
+            LpKind::PairLp | LpKind::PairLpCw20 => {
                 w.register_native_decimals("uaaa", 6);
                 w.register_native_decimals("ubbb", 6);
-                let infos = [native("uaaa"), native("ubbb")];
+                let infos = if cfg.lp == LpKind::PairLpCw20 {
+                    [native("uaaa"), token(&w.create_cw20_with_fund("pooltok", 6, I_FUND))]
+                } else {
+                    [native("uaaa"), native("ubbb")]
+                };
                 let info = w.create_pair(infos.clone(), pool_fee([0, 3_000_000_000_000_000, 0]), PairType::ConstantProduct)?;
                 let p = Addr::unchecked(info.contract_addr);
                 // every user gets LP by providing liquidity
@@ -92,6 +98,14 @@ impl IncWorld {
                 all.push(owner.clone());
                 for (i, u) in all.iter().enumerate() {
                     let a = 1u128 << (70 + i as u32);
+                    let mut funds = vec![coin(a, "uaaa")];
+                    match &infos[1] {
+                        AssetInfo::NativeToken { denom } => funds.push(coin(a, denom)),
+                        AssetInfo::Token { contract_addr } => {
+                            let t = Addr::unchecked(contract_addr);
+                            w.increase_allowance(u, &t, &p, a);
+                        }
+                    }
                     w.exec(
                         u,
                         &p,
@@ -100,7 +114,7 @@ impl IncWorld {
                             slippage_tolerance: None,
                             receiver: None,
                         },
-                        &[coin(a, "uaaa"), coin(a, "ubbb")],
+                        &funds,
                     )?;
                 }
                 pair = Some(p);
@@ -142,7 +156,7 @@ impl IncWorld {
         let incentive = addr.ok_or("incentive not registered")?;
         w.register("incentive", &incentive);
         let mut helper = None;
-        if cfg.lp == LpKind::PairLp {
+        if cfg.lp == LpKind::PairLp || cfg.lp == LpKind::PairLpCw20 {
             let h = w.instantiate(
                 w.code.frontend_helper,
                 &owner,
